@@ -173,7 +173,9 @@ def _comp_alpha(text: str) -> str:
                     return ast.copy_location(ast.Name(env[node.id], node.ctx), node)
             return node
 
-    return ast.unparse(R().visit(tree))
+    from ..nform import sort_operands
+
+    return ast.unparse(sort_operands(R().visit(tree)))
 
 
 def same(actual: str, expected: str) -> bool:
